@@ -231,6 +231,15 @@ pub fn req_frame_keys(id: u64, fields: u32, value_len: u32, binary: Option<u32>,
         for j in 0..value_len {
             v.push((b'a' + ((j + k) % 26) as u8) as char);
         }
+        // values are free text up to the line end: some end in a blank, a tab, a CR, or carry
+        // the separator and protocol words inside (a song title is whatever the tagger wrote)
+        match (id + k as u64) % 9 {
+            2 => v.push(' '),
+            4 => v.push('\t'),
+            5 => v.push('\r'),
+            7 => v.push_str(": OK "),
+            _ => {}
+        }
         let key = if distinct_keys {
             alpha_key(id * 64 + k as u64)
         } else {
